@@ -9,6 +9,7 @@ import (
 	"go/constant"
 	"go/token"
 	"go/types"
+	"sync"
 	"unsafe"
 
 	"golang.org/x/tools/go/ssa"
@@ -825,25 +826,30 @@ func unopConcrete(instr *ssa.UnOp, x value) value {
 // unless instr.CommaOk, in which case it always returns a "value,ok" tuple.
 func typeAssert(i *interpreter, instr *ssa.TypeAssert, itf iface) value {
 	var v value
-	err := ""
+	fail := 0
 	if itf.t == nil {
-		err = fmt.Sprintf("interface conversion: interface is nil, not %s", instr.AssertedType)
-
+		fail = 1
 	} else if idst, ok := instr.AssertedType.Underlying().(*types.Interface); ok {
 		v = itf
-		err = checkInterface(i, idst, itf)
-
-	} else if types.Identical(itf.t, instr.AssertedType) {
+		if !implementsCached(itf.t, idst) {
+			fail = 2
+		}
+	} else if itf.t == instr.AssertedType || types.Identical(itf.t, instr.AssertedType) {
 		v = itf.v // extract value
-
 	} else {
-		err = fmt.Sprintf("interface conversion: interface is %s, not %s", itf.t, instr.AssertedType)
+		fail = 3
 	}
-	// Note: if instr.Underlying==true ever becomes reachable from interp check that
-	// types.Identical(itf.t.Underlying(), instr.AssertedType)
-
-	if err != "" {
+	if fail != 0 {
 		if !instr.CommaOk {
+			var err string
+			switch fail {
+			case 1:
+				err = fmt.Sprintf("interface conversion: interface is nil, not %s", instr.AssertedType)
+			case 2:
+				err = checkInterface(i, instr.AssertedType.Underlying().(*types.Interface), itf)
+			default:
+				err = fmt.Sprintf("interface conversion: interface is %s, not %s", itf.t, instr.AssertedType)
+			}
 			panic(targetPanic{v: err, rt: true})
 		}
 		return tuple{zero(instr.AssertedType), false}
@@ -852,6 +858,24 @@ func typeAssert(i *interpreter, instr *ssa.TypeAssert, itf iface) value {
 		return tuple{v, true}
 	}
 	return v
+}
+
+type implKey struct {
+	t types.Type
+	i *types.Interface
+}
+
+var implCache sync.Map
+
+func implementsCached(t types.Type, it *types.Interface) bool {
+	k := implKey{t, it}
+	if v, ok := implCache.Load(k); ok {
+		return v.(bool)
+	}
+	meth, _ := types.MissingMethod(t, it, true)
+	r := meth == nil
+	implCache.Store(k, r)
+	return r
 }
 
 // widen widens a basic typed value x to the widest type of its
